@@ -22,7 +22,7 @@ if ! git apply "$SRC/patch.diff" 2>/dev/null; then
   if ! git apply --3way "$SRC/patch.diff" >/dev/null 2>&1; then echo "NOT-CONFIRMED patch does not apply to HEAD"; git checkout -q -- .; rm -f tests/seed_demo.rs; exit 1; fi
 fi
 OUT=$(cargo test --offline --lib --bins --tests --no-fail-fast -- --test-threads=1 2>&1)
-if echo "$OUT" | grep -q "^error"; then echo "NOT-CONFIRMED patched tree does not compile"; git checkout -q -- .; rm -f tests/seed_demo.rs; exit 1; fi
+if echo "$OUT" | grep -qE "could not compile|^error\[E"; then echo "NOT-CONFIRMED patched tree does not compile"; git checkout -q -- .; rm -f tests/seed_demo.rs; exit 1; fi
 PASS=$(echo "$OUT" | grep -E "^test result" | awk '{p+=$4; f+=$6} END {print p" passed "f" failed"}')
 DEMO=$(echo "$OUT" | grep -E "^test .* FAILED" | wc -l)
 DEMOFAIL=$(cargo test --offline --test seed_demo -- --test-threads=1 2>&1 | grep -E "^test result" | tail -1)
